@@ -36,17 +36,17 @@ def rename_map(names, kind, rng):
     return {a: new[perm[i]] for i, a in enumerate(srt)}
 
 
-def make(est, fi, tol=1e-9, warm=False):
+def make(est, fi, tol=1e-9, warm=False, alpha=0.01):
     import skglm
     from skglm.datafits import Logistic, QuadraticSVC
     from skglm.penalties import L1, IndicatorBox
     from skglm.solvers import ProxNewton, AndersonCD
     if est == "SparseLogisticRegression":
-        return skglm.SparseLogisticRegression(alpha=0.01, fit_intercept=fi, tol=tol, warm_start=warm)
+        return skglm.SparseLogisticRegression(alpha=alpha, fit_intercept=fi, tol=tol, warm_start=warm)
     if est == "LinearSVC":
         return skglm.LinearSVC(C=0.5, tol=tol, warm_start=warm)
     if est == "GLE_Logistic":
-        return skglm.GeneralizedLinearEstimator(Logistic(), L1(0.01), ProxNewton(fit_intercept=fi, tol=tol,
+        return skglm.GeneralizedLinearEstimator(Logistic(), L1(alpha), ProxNewton(fit_intercept=fi, tol=tol,
                                                                                  warm_start=warm))
     return skglm.GeneralizedLinearEstimator(QuadraticSVC(), IndicatorBox(0.5),
                                             AndersonCD(fit_intercept=False, tol=tol, warm_start=warm))
@@ -60,6 +60,10 @@ def run_one(item, seed, tid):
     X = gen.design(rng, N, P, rho=0.2)
     centers = rng.standard_normal((k, P)) * 1.5
     lab_idx = rng.integers(0, k, N)
+    null_reg = sc.get("regime") == "null_imbalanced"
+    if null_reg:
+        lab_idx = (rng.random(N) < 0.2).astype(int)
+        lab_idx[:2] = [0, 1]
     X = np.asfortranarray(X + centers[lab_idx] + (0.7 if sc["fit_intercept"] else 0.0))
     names = labels_for(sc["alphabet"], k, rng)
     y = np.array([names[i] for i in lab_idx])
@@ -68,9 +72,13 @@ def run_one(item, seed, tid):
     fi = bool(sc["fit_intercept"])
 
     warm = sc.get("refit") == "same_object_warm"
+    alpha_fit = 0.01
+    if null_reg:
+        yb = np.where(lab_idx == 1, 1.0, -1.0)
+        alpha_fit = 1.5 * float(np.max(np.abs(X.T @ (yb - yb.mean())))) / (2 * N)      # above the critical strength
 
     def fit(yy):
-        est = make(sc["est"], fi, warm=warm)
+        est = make(sc["est"], fi, warm=warm, alpha=alpha_fit)
         with warnings.catch_warnings():
             warnings.simplefilter("ignore")
             est.fit(Xs, yy)
@@ -114,6 +122,17 @@ def run_one(item, seed, tid):
                 exp = np.array([classes[int(i)] for i in dec_lin.argmax(axis=1)])
             safe = (np.abs(dec_lin[:, 0]) > 1e-9) if len(classes) == 2 else np.ones(N, bool)
             f.flag("predict_is_argmax", bool(np.all(pred[safe] == exp[safe])))
+        if hasattr(est, "predict_proba") and len(classes) > 2:
+            # far from the training data (all one-vs-rest scores strongly negative / positive): still probabilities
+            cmean = coef.mean(axis=0)
+            far = np.vstack([-t * cmean / max(1e-12, float(cmean @ cmean)) for t in (10.0, 25.0, 40.0)]
+                            + [X[i] * 8.0 for i in range(5)])
+            dfar = far @ coef.T + icpt
+            pfar = np.asarray(est.predict_proba(sparse.csc_matrix(far) if sc["storage"] == "csc" else far), dtype=float)
+            ok = pfar.shape == (len(far), len(classes)) and bool(np.all(np.isfinite(pfar)))
+            f.flag("proba_far_shape", ok)
+            if ok and float(np.max(np.abs(dfar))) < 300:
+                f.le("proba_sum", float(np.max(np.abs(pfar.sum(axis=1) - 1.0))), 1e-9)
         if hasattr(est, "predict_proba"):
             pr = np.asarray(est.predict_proba(Xs), dtype=float)
             f.flag("proba_shape", pr.shape == (N, len(classes)))
@@ -227,12 +246,13 @@ def run(prop, tier, seed):
         keep, seen = [], set()
         for i in idx:
             s = items[i]["sc"]
-            k1 = (s["est"], s["k"] > 2, s["rename"], s.get("refit"), s["alphabet"] if s.get("refit") != "fresh" else "")
+            k1 = (s["est"], s["k"] > 2, s["rename"], s.get("refit"), s["alphabet"] if s.get("refit") != "fresh" else "",
+                  s.get("regime"), s["alphabet"] if s.get("regime") != "regular" else "")
             if k1 not in seen:
                 seen.add(k1)
                 keep.append(items[i])
         for i in idx:
-            if len(keep) >= 110:
+            if len(keep) >= 140:
                 break
             if items[i] not in keep:
                 keep.append(items[i])
